@@ -1,6 +1,9 @@
 import CompmechVerif.Model.Chunking
 import Mathlib.Tactic.Ring
 import Mathlib.Tactic.Linarith
+import Mathlib.Algebra.BigOperators.Fin
+import Mathlib.Algebra.Field.Defs
+import Mathlib.Tactic.FinCases
 
 namespace Compmech.Chunking
 
@@ -41,5 +44,38 @@ theorem chunkedMap_eq_map {α β : Type} (f : α → β) (z : α) (xs : List α)
   have hfl : ((rows cores (padded.length / cores) padded).map (List.map f)).flatten = padded.map f := by
     rw [← List.map_flatten, rows_flatten _ _ _ hmul]
   rw [hfl, hp, List.map_append, List.take_append_of_le_length (by simp), List.take_of_length_le (by simp)]
+
+/-! ### `Panel.strain` / `Panel.stress` -/
+
+open scoped BigOperators
+
+/-- the six products ARE the laminate matrix times the strain vector -/
+theorem applyF_vec {K : Type} [CommRing K] (F : Fin 6 → Fin 6 → K) (e : Strain6 K) (r : Fin 6) :
+    (applyF F e).vec r = ∑ q : Fin 6, F r q * e.vec q := by
+  have hs : ∀ r : Fin 6, stressRow F r e = ∑ q : Fin 6, F r q * e.vec q := by
+    intro r
+    rw [Fin.sum_univ_six]
+    change stressRow F r e = F r 0 * e.exx + F r 1 * e.eyy + F r 2 * e.gxy + F r 3 * e.kxx + F r 4 * e.kyy + F r 5 * e.kxy
+    unfold stressRow
+    ring
+  fin_cases r <;> exact hs _
+
+theorem panelStrain_eq_map {α K : Type} (kernel : Nat → α → Strain6 K) (z : α) (cores : Nat) (h : 1 ≤ cores)
+    (NLterms : Bool) (pts : List α) :
+    panelStrain kernel z cores NLterms pts = pts.map (kernel (nlFlag NLterms)) :=
+  chunkedMap_eq_map _ z pts cores h
+
+theorem panelStress_some {α K : Type} [Add K] [Mul K] (selfF Farg : Option (Fin 6 → Fin 6 → K))
+    (F : Fin 6 → Fin 6 → K) (hF : Farg = some F ∨ (Farg = none ∧ selfF = some F))
+    (kernel : Nat → α → Strain6 K) (z : α) (cores : Nat) (NLterms : Bool) (pts : List α) :
+    panelStress selfF Farg kernel z cores NLterms pts =
+      some ((panelStrain kernel z cores NLterms pts).map (applyF F)) := by
+  rcases hF with h | ⟨h1, h2⟩
+  · subst h; rfl
+  · subst h1; subst h2; rfl
+
+theorem panelStress_none {α K : Type} [Add K] [Mul K]
+    (kernel : Nat → α → Strain6 K) (z : α) (cores : Nat) (NLterms : Bool) (pts : List α) :
+    panelStress (none : Option (Fin 6 → Fin 6 → K)) none kernel z cores NLterms pts = none := rfl
 
 end Compmech.Chunking
